@@ -26,3 +26,14 @@ mut("C19", "rotenc-table-entry-wrong-group", [("librfn/rotenc.c", "\tcase FROM(1
 mut("C19", "rotenc-latch-every-call", [("librfn/rotenc.c", "\tif (!state)\n\t\tr->count", "\tif (state != 3)\n\t\tr->count")], r"latched|detent|invariant", skip_tests=True)
 mut("C19", "rotenc-count14-splice-back", [("librfn/rotenc.c", "\treturn r->count;", "\treturn ((r->internal_count >> 2) & 0x3f00) + (r->count & 0xff);")], r"count14")
 mut("C19", "rotenc-count14-live", [("librfn/rotenc.c", "\treturn r->count;", "\treturn r->internal_count >> 2;")], r"count14|detent", skip_tests=True)
+
+# C12
+mut("C12", "pack-exact-fit-lt", [("librfn/pack.c", "\tpack->p += sz; \\\n\tif (pack->p <= pack->endp)", "\tpack->p += sz; \\\n\tif (pack->p < pack->endp)")], r"least significant|most significant|copies|postcondition")
+mut("C12", "unpack-exact-fit-ge", [("librfn/pack.c", "\tif (pack->p > pack->endp) \\", "\tif (pack->p >= pack->endp) \\")], r"rf_unpack_")
+mut("C12", "pack-u16be-swapped", [("librfn/pack.c", "\t\tp[0] = (u16 >> 8) & 0xff;\n\t\tp[1] = u16 & 0xff;", "\t\tp[1] = (u16 >> 8) & 0xff;\n\t\tp[0] = u16 & 0xff;")], r"rf_pack_u16be")
+mut("C12", "unpack-s8-masked", [("librfn/pack.c", "int8_t s8 = p[0];", "int8_t s8 = p[0] & 0x7f;")], r"rf_unpack_s8")
+mut("C12", "unpack-bytes-no-zero-fill", [("librfn/pack.c", "\t} else {\n\t\tif (p)\n\t\t\tmemset(p, 0, sz);\n\t}", "\t}")], r"zero-fills")
+mut("C12", "pack-bytes-null-ones", [("librfn/pack.c", "memset(q, 0, sz);", "memset(q, 0xff, sz);")], r"NULL source packs zeros")
+mut("C12", "pack-s16le-sign", [("librfn/pack.c", "\t\tp[0] = s16 & 0xff;\n\t\tp[1] = (s16 >> 8) & 0xff;", "\t\tp[0] = s16 & 0xff;\n\t\tp[1] = (s16 >> 8) & 0x7f;")], r"rf_pack_s16le")
+mut("C12", "unpack-no-advance-on-overflow", [("librfn/pack.c", "\tif (pack->p > pack->endp) \\\n\t\treturn 0; \\", "\tif (pack->p > pack->endp) { \\\n\t\tpack->p = pack->endp; return 0; } \\")], r"cursor advances|postcondition")
+mut("C12", "remaining-clamped", [("librfn/pack.c", "\treturn pack->endp - pack->p;", "\treturn pack->endp > pack->p ? pack->endp - pack->p : 0;")], r"rf_pack_remaining")
